@@ -28,6 +28,8 @@ import zlib
 from concurrent.futures import ProcessPoolExecutor, as_completed
 import multiprocessing
 
+sys.setrecursionlimit(max(10000, sys.getrecursionlimit()))      # the small DPLL of vlib/sat.py recurses per decision
+
 VERIF_DIR = os.path.dirname(os.path.dirname(os.path.abspath(__file__)))
 REPO = os.path.realpath(os.environ.get("VERIF_REPO", "/repo"))
 NPROC = int(os.environ.get("VERIF_JOBS", "16"))
